@@ -172,6 +172,28 @@ SureOutFlex(el, C, q) ==
         \/ (el.end # "round" /\ BeyondStart /\ \A k \in 2..(n - 1) : FarSeg(k))
         \/ (el.end # "round" /\ BeyondEnd /\ \A k \in 1..(n - 2) : FarSeg(k))
 
+\* ---- RobustPath ------------------------------------------------------------------------------
+\* State [end (x3 lattice: thirds appear in smooth continuations), nsec, grad3 (3 x end gradient
+\* direction of the last polynomial section, or "none")].  Section records as for Curve; widths and
+\* offsets are Interpolation records [t |-> "none"|"constant"|"linear"|"smooth", a, b] in 1/1000.
+R3(p) == <<3 * p[1], 3 * p[2]>>
+\* end point (x3) after a polynomial section starting at end3 (x3)
+RAbs3(st, p, rel) == IF rel THEN VAdd(st.end, R3(p)) ELSE R3(p)
+RobustEnd3(st, s) ==
+    CASE s.k = "segment" -> RAbs3(st, s.p, s.rel)
+      [] s.k = "horizontal" -> <<IF s.rel THEN st.end[1] + 3 * s.x ELSE 3 * s.x, st.end[2]>>
+      [] s.k = "vertical" -> <<st.end[1], IF s.rel THEN st.end[2] + 3 * s.y ELSE 3 * s.y>>
+      [] s.k \in {"cubic", "cubic_smooth", "quadratic", "quadratic_smooth"} -> RAbs3(st, s.e, s.rel)
+      [] s.k = "bezier" -> RAbs3(st, s.pts[Len(s.pts)], s.rel)
+      [] s.k = "arc" -> VAdd(st.end, <<3 * s.rx * (CosQ(s.a1) - CosQ(s.a0)), 3 * s.ry * (SinQ(s.a1) - SinQ(s.a0))>>)
+RobustExact(s) == s.k \in Polynomial \/ (s.k = "arc" /\ s.rot = 0 /\ s.a0 % 90 = 0 /\ s.a1 % 90 = 0)
+\* value of an interpolation at u = num/2 (num in {0, 1, 2}), times 2 (exact in 1/2000)
+Interp2(ip, prev, num) ==
+    CASE ip.t = "none" -> 2 * prev
+      [] ip.t = "constant" -> 2 * ip.a
+      [] ip.t \in {"linear", "smooth"} -> (2 - num) * ip.a + num * ip.b     \* smooth(1/2) = midpoint
+InterpEnd(ip, prev) == CASE ip.t = "none" -> prev [] ip.t = "constant" -> ip.a [] OTHER -> ip.b
+
 \* ---- bounds on the measured observations --------------------------------------------
 \* a vertex is ON the curve when its distance is below 1e-6 of the feature size (1000 nano)
 OnCurveNano == 1000
